@@ -151,6 +151,8 @@ def check(run):
                 for m in ('forward', 'take', 'compile', 'compose', 'copy', 'gate'):
                     if m in c.methods:
                         entries.append(c.methods[m])
+        # rotation gates are what diagonalize / SBRG / user code feed to take(): their qubit indices must be comparable by value
+        entries.append(repo.func('%s/circuit.py' % pkg, 'clifford_rotation_gate'))
     resolve.check_cone(run, repo, entries, 'circuit forward')
     run.floor('R11.indep', 4)
     run.floor('R11.recompile', 4)
